@@ -17,10 +17,12 @@ theorem drop_idle_is_noop (ph : Phase) (h : ph = .idle) : (if true then Phase.id
 
 /-- a poll that starts in `idle` and suspends without having decoded a keep-alive is still `idle` -/
 theorem pending_phase_cases (cfg : Cfg) (st : St) (ph : Phase) (st' : St) (ph' : Phase)
-    (h : poll cfg st ph = (st', ph', .pending)) : ph' = .idle ∨ ∃ rem f c, ph' = .writing rem f c := by
+    (h : poll cfg st ph = (st', ph', .pending)) :
+    ph' = .idle ∨ (∃ rem f c, ph' = .writing rem f c) ∨ ∃ f c, ph' = .flushing f c := by
   cases ph' with
   | idle => exact Or.inl rfl
-  | writing rem f c => exact Or.inr ⟨rem, f, c, rfl⟩
+  | writing rem f c => exact Or.inr (Or.inl ⟨rem, f, c, rfl⟩)
+  | flushing f c => exact Or.inr (Or.inr ⟨f, c, rfl⟩)
 
 /-- **cancel_safe_partial**: with drops restricted to suspension points where no decoded packet is
 in flight, every drop schedule gives exactly the uninterrupted session: same deliveries in the same
@@ -41,6 +43,7 @@ theorem cancel_safe_partial (cfg : Cfg) (dropAt : Nat → Bool) (fuel n : Nat) (
       cases ph' with
       | idle => simp only [Bool.false_and, ih]; cases dropAt n <;> simp [ih]
       | writing rem f c => simp [ih]
+      | flushing f c => simp [ih]
 
 /-- … and the uninterrupted session does not depend on the schedule's numbering -/
 theorem no_drop_schedule_irrelevant (cfg : Cfg) (fuel n m : Nat) (st : St) (ph : Phase) :
